@@ -286,7 +286,8 @@ Print Assumptions C04_listing_parser_is_translation_of_source.
 (** The command a push runs on the remote side is the translation of transfer.rs `transfer_file_to_remote` as the source
     has it now: `cat > T && [ "$(wc -c < T)" -eq SIZE ] && mv -f T D [&& touch -d @MTIME D]` where every path is the
     word `$'..'` of Model/ShellQuote.v ([quoted_word]: the two `replace` calls are [escape]) and T is D with the staging
-    suffix (Gen/PushCommandGen.v, Proofs/TiePushCommand.v). *)
+    suffix (Gen/PushCommandGen.v, Proofs/TiePushCommand.v); likewise the pull streamer's `cat $'..'`, the remote scan's
+    `cd $'..' && find . -type f -printf ..` and the NUL-terminated directory list a push hands to `xargs -0 mkdir -p`. *)
 Require Copia.Proofs.TiePushCommand.
 Theorem C04_push_command_is_translation_of_source : TiePushCommand.push_command_is_translation.
 Proof. exact TiePushCommand.push_command_is_translation_holds. Qed.
